@@ -645,8 +645,10 @@ P = {
                   "reduces the property to TWO facts about heimdall, both REGENERATED from the current source by harness/tools/effects and checked "
                   "by vm_compute: `effects_read_only` (go/ssa taint analysis: no method writes receiver memory; self-tested on 47 seeded "
                   "constructs) and `variants_ok` (go/ssa abstract interpretation of all 19 WithConfig and the constructors / Merge helpers / "
-                  "closures they call: 102 fields; self-tested on 9 fixture types: slices.Clip aliasing, shared-then-mutated and lazily filled maps, "
-                  "struct copy with embedded pointer, copied memo, forgotten / swapped / never-set field, sub-slice).  That the VALUE built for an overridden "
+                  "closures they call: 102 fields; self-tested on 13 fixture types: slices.Clip aliasing, shared-then-mutated and lazily filled maps, "
+                  "struct copy with embedded pointer, copied memo, forgotten / swapped / never-set field, sub-slice, and every "
+                  "spelling of the shallow element-wise copy — Clone, make + maps.Copy, copy(), append onto fresh, Insert, Concat, loop — "
+                  "which must all give `fresh container, elements shared`).  That the VALUE built for an overridden "
                   "field is the right one is CHECKED, not proved: ~800 (quick) / 12000 (thorough) histories on the real mechanisms in all creation "
                   "orders compare every variant, field by field and in behaviour, with a prototype that the constructor builds from the merged "
                   "configuration, and rule-B-after-rule-A on a shared cache with rule B alone; a 16-goroutine -race stream with key-store reloads "
